@@ -642,7 +642,9 @@ def c18_positions(plot, st, full, model_times, margin, valid_channels):
             if x != s:
                 out.append(F(["C18"], "block-left-edge!=start", op=i, kind=kind, x=x, start=s))
             qs = [q for q, _ in ops_l[i]["l"][1] if q in rows]
-            if kind in ("Barrier", "CoordinateShiftOperation"):
+            if kind == "CoordinateShiftOperation":
+                continue   # an annotation without a drawing of its own (default block)
+            if kind == "Barrier":
                 # anchored at the lower edge: the block must reach the row of every one of its qubits
                 for q in qs:
                     ry = -1 * rows.index(q) * sp
